@@ -28,6 +28,7 @@ COMMON = ["-std=c++20", "-pthread", "-fno-omit-frame-pointer", "-g1",
 ASAN_RT = ("ASAN_OPTIONS", "abort_on_error=1:detect_leaks=1:strict_string_checks=1:"
            "detect_stack_use_after_return=0:allocator_may_return_null=1:handle_abort=0")
 UBSAN_RT = ("UBSAN_OPTIONS", "print_stacktrace=1:halt_on_error=1")
+LSAN_RT = ("LSAN_OPTIONS", "max_leaks=40:print_suppressions=0")
 TSAN_RT = ("TSAN_OPTIONS", "halt_on_error=1:second_deadlock_stack=1:report_signal_unsafe=0")
 
 HOOKS = ["-DUNODB_DETAIL_VERIF_HOOKS"]
@@ -38,7 +39,7 @@ CONFIGS = {
     # assertions on, ASan+UBSan+LSan
     "dbg-asan": (COMMON + HOOKS + STATS + ["-mavx2", "-O1", "-D_GLIBCXX_ASSERTIONS",
                  "-fsanitize=address,undefined", "-fno-sanitize-recover=all"],
-                 dict([ASAN_RT, UBSAN_RT])),
+                 dict([ASAN_RT, UBSAN_RT, LSAN_RT])),
     # assertions on, no sanitizer
     "dbg": (COMMON + HOOKS + STATS + ["-mavx2", "-O1", "-D_GLIBCXX_ASSERTIONS"], {}),
     # assertions on, repo's own allocation failure injector for operator new
@@ -47,7 +48,7 @@ CONFIGS = {
     "rel": (COMMON + HOOKS + STATS + ["-mavx2", "-O2", "-DNDEBUG"], {}),
     "rel-asan": (COMMON + HOOKS + STATS + ["-mavx2", "-O1", "-DNDEBUG",
                  "-fsanitize=address,undefined", "-fno-sanitize-recover=all"],
-                 dict([ASAN_RT, UBSAN_RT])),
+                 dict([ASAN_RT, UBSAN_RT, LSAN_RT])),
     "rel-tsan": (COMMON + HOOKS + STATS + ["-mavx2", "-O1", "-DNDEBUG", "-fsanitize=thread"],
                  dict([TSAN_RT])),
     "dbg-tsan": (COMMON + HOOKS + STATS + ["-mavx2", "-O1", "-fsanitize=thread"],
